@@ -939,10 +939,9 @@ func (ex *Exec) applyContract(p *Path, c *Contract, fn *types.Func, recv *Value,
 			ex.havocEventsOf(p, fi)
 		}
 	}
-	if ex.traceEvents {
-		// the events the callee's own contract talks about happen inside the call: their ghost cells are unknown afterwards
-		ex.havocNamedEvents(p, contractEventNames(c))
-	}
+	// the events the callee's own contract talks about happen inside the call: their ghost cells are unknown afterwards
+	// (whether or not the caller itself counts events: the callee's postcondition is stated over them)
+	ex.havocNamedEvents(p, contractEventNames(c))
 	for _, m := range c.Modifies {
 		if m == "*" {
 			keep := ex.keepPrivate(p)
